@@ -166,6 +166,75 @@ CLAIMED = {
         'note': 'Trusted: Thread.is_alive/join semantics. Delivery after restart relies on C06.',
         'technique': SA + 'return-path completeness, dominance, finite evaluation of is_alive over handle states, singleton/alias census',
     },
+    'C01': {
+        'level': 'Decides, for every nesting depth and every depth of initial transition (loops are solved by widening, not unrolled), the buffer and '
+                 'ordering side of the transition machinery: every store/append/load on the entry-path buffer is at the index the code believes '
+                 '(zone-domain abstract interpretation of dispatch with trans_ inlined), entry loops enter slots j..0 once each and end exactly '
+                 'after the target, a found common ancestor is not re-entered, trans_ sends only SUPER/EXIT, parents are read from the cursor only '
+                 'when known, and dispatch leaves cursor == state. That branches (a)-(g) pick the *least* common ancestor for every (S,T) is NOT decided.',
+        'note': 'Trusted base: handler protocol H1-H4 (evidence lists it); the thorough tier\'s census checks the repository\'s own handlers against it. '
+                'Functional correctness of the LCA search over a runtime tree is outside this family.',
+        'technique': SA + 'relational abstract interpretation (difference-bound matrices, flag-partitioned, delayed widening) + CFG path/guard rules over the 19 handler-call sites',
+    },
+    'C02': {
+        'level': 'Decides for every chart that the processor itself bubbles an event outward one level at a time (one offer per level to the cursor '
+                 'state, EMPTY re-ask exactly on UNHANDLED with its answer steering, exit exactly on not-SUPER) and runs no action and changes no '
+                 'state unless a handler answered TRAN; top is effect-free and constant; every cursor-moving method restores cursor == state.',
+        'note': 'What a user handler returns is runtime and not decided. H1-H4 assumed.',
+        'technique': SA + 'loop-shape and guard-polarity analysis on the CFG of dispatch, reaching definitions of the offered-to state, effect set of top, post-dominance (I1)',
+    },
+    'C03': {
+        'level': 'Decides for every depth that init() keeps its path buffer consistent (zone-domain proof of all index obligations), enters slots '
+                 'index-1..0 once each ending at the target, sends only SUPER/ENTRY/INIT (nothing is exited), that start_at wires state/top/cursor '
+                 'before init() and leaves cursor == state == last init target.',
+        'note': 'As C01: LCA-style functional correctness is not decided; H1-H4 assumed.',
+        'technique': SA + 'zone-domain abstract interpretation of init + entry-loop, signal-set and must-precede rules',
+    },
+    'C19': {
+        'level': 'Decides structurally that the spy log records every invocation: all handler calls go through the decorated handler object, and '
+                 'inside spy_on the offer line dominates the wrapped call, the HOOK line is control-dependent on HANDLED and non-inner signal, '
+                 'markers are written with the right text/event/order and only when instrumented, the step log is cleared only before a step and '
+                 'the full log only grows by extend(step log) after it, rings are bounded and right-extended. The exact line sequence for a '
+                 'given chart is NOT decided.',
+        'note': 'Trusted: handlers reach the processor only as the decorated object given to start_at/trans.',
+        'technique': SA + 'dominance / control-dependence on wrapper CFGs, who-writes census over the four ring buffers',
+    },
+    'C20': {
+        'level': 'Decides that each trace wrapper appends at most one record per call, only under "not hooked and not ignored", with start state '
+                 'reflected before and end state after the step and only this step\'s tuples inspected; and outcome completeness: IGNORED always '
+                 'sets event.ignored, and every package handler that is not spy-wrapped and can answer HANDLED records a hook tuple.',
+        'note': 'Assumes user handlers are spy-wrapped when the chart is instrumented (spy_on_start switches instrumentation off otherwise).',
+        'technique': SA + 'path counting, guard analysis, outcome-completeness rule over dispatch and every top() override',
+    },
+    'C21': {
+        'level': 'Decides clock-independence: no comparison of clock-derived values controls a live callback (field-based taint), newness of a trace '
+                 'record is decided by identity with the remembered record and the memory is updated on every path, live spy loops iterate a '
+                 'snapshot with one callback per line after the step, and active-object output funnels through one FIFO queue and one writer thread.',
+        'note': 'Two writer threads from concurrently starting objects are outside this property\'s quantifier. User callbacks not analysed.',
+        'technique': SA + 'field-based taint from datetime.now() to branch conditions, identity/update-on-every-path rule, loop-shape rules',
+    },
+    'C22': {
+        'level': 'Decides for every chart and argument that is_in/child_state can only send SUPER, write only the cursor, restore it on every exit, '
+                 'walk outward from the cursor until top answers IGNORED or the argument matches (== comparison), set their answer only on a match, '
+                 'and that child is the cursor before the outward step.',
+        'note': 'Relies on I1 (cursor == state between steps), which is checked for init/dispatch in the same run. child_state fails through assert.',
+        'technique': SA + 'signal-set, write-set, post-dominance and control-dependence rules',
+    },
+    'C23': {
+        'level': 'Decides that after start_at and after every step the last writer of state_name/state_fn on every path names the value stored in '
+                 'state.fun: the bookkeeping post-dominates every handler call of dispatch/start_at, wrappers call handlers afterwards only '
+                 'through state.fun/temp.fun, and spy_on writes the wrapped function\'s own name before calling it.',
+        'note': 'H4 assumed.',
+        'technique': SA + 'post-dominance over handler-call sites, value-identity of the bookkeeping operands, census of post-step handler calls in wrappers',
+    },
+    'C24': {
+        'level': 'Decides that every loop of init/dispatch/trans_ has a termination argument (decreasing index / answer-steered / I1-bounded / '
+                 'repeat-parent-guarded cursor walk), that every walk-steering handler answer is tested for None before it is compared, that both '
+                 'initial-transition walks carry the guard, and (zone domain) that init never reads a negative index. A hang or silently wrong walk '
+                 'on a malformed chart is a missing guard, visible for every chart shape.',
+        'note': 'H1 for top (answers IGNORED, does not move the cursor). Malformed charts other than the two kinds the property names are not covered.',
+        'technique': SA + 'loop inventory with termination arguments, None-discipline dataflow over handler-call sites, sibling comparison, zone-domain index proofs',
+    },
 }
 
 NOT_APPLICABLE = {}
